@@ -261,6 +261,32 @@ def cases(tier, seed):
     comp = [[["meter", 1]], [["second", 1]], [["gram", 1]], [["newton", 1]], [["watt", 1]], [["meter", 2]], [["meter", 3]], [["meter", 1], ["second", -1]], [["second", -1]], [["second", -2]], [["kilometer", 1]], [["inch", 1]]]
     if big:
         comp += [draw(rnd.choice([1, 2])) for _ in range(15)]
+    # canonical names that also have a prefix / plural reading by the documented rule (from REF)
+    from ..ref import refdefs
+
+    d = refdefs.default()
+    inf_ = covers.infos()
+    amb = []
+    for n, info in sorted(inf_.items()):
+        if info.kind not in ("base", "mult", "dimensionless") or info.inexact:
+            continue
+        other = False
+        for suffix in ("", "s"):
+            stem = n[:-1] if suffix and n.endswith("s") else (n if not suffix else None)
+            if stem is None:
+                continue
+            if suffix and len(stem) > 1 and stem in d.spellings:
+                other = True
+            for p_ in d.prefixes:
+                if stem.startswith(p_) and stem[len(p_) :] in d.spellings and not (suffix and len(stem[len(p_) :]) == 1):
+                    other = True
+        if other:
+            amb.append(n)
+    comp += [[[n, 1]] for n in amb]
+    for n in amb:
+        for s_ in ("default", "cgs"):
+            out.append(Case("H15.a", f"root-base:{n}^1:{s_}", M, "h_root_base", {"units": [[n, 1]], "system": s_}, validate=1))
+        out.append(Case("H15.b", f"reduced:{n}^1*second^-1", M, "h_reduced", {"units": [[n, 1], ["second", -1]]}, validate=1))
     for ul in comp:
         for sign in (1, -1) if (big or len(ul) == 1) else (1,):
             out.append(Case("H15.c", f"compact:{_sig(ul)}:{'+' if sign > 0 else '-'}", M, "h_compact", {"units": ul, "sign": sign}, opts={"max_paths": 3000, "query_timeout_ms": 30000}, weight=20.0, validate=0))
